@@ -16,6 +16,7 @@ EXTRACT = os.path.join(VERIF, "tools/vp-extract/target/release/vp-extract")
 UNITS = os.path.join(VERIF, "units")
 KANI_DIR = os.path.join(VERIF, "kani")
 CACHE = os.path.join(VERIF, ".cache")
+KANI_TARGET = os.environ.get("VP_KANI_TARGET", os.path.join(CACHE, "kani-target"))
 TAG_RE = re.compile(r"\[(C\d\d(?:\.[A-Za-z0-9_\-]+)+)\]")
 
 ASSUME_PATTERNS = {
@@ -215,7 +216,7 @@ def run_verus_unit(unit, keep_dir=None, extra_args=None, rlimit=None, mutate=Non
 
 # ------------------------------------------------------------------------------------------ Kani
 
-HARNESS_RE = re.compile(r"((?:\s*//\s*vp:.*\n)+)(?:\s*#\[[^\n]*\]\s*\n)*\s*(?:pub\s+)?fn\s+(\w+)")
+HARNESS_RE = re.compile(r"((?:[ \t]*//\s*vp:.*\n)+)(?:[ \t]*(?://[^\n]*|#\[[^\n]*\])[ \t]*\n)*[ \t]*(?:pub\s+)?fn\s+(\w+)")
 
 
 def kani_harness_index():
@@ -241,6 +242,16 @@ def kani_harness_index():
                 meta["name"] = m.group(2)
                 idx[m.group(2)] = meta
     return idx
+
+
+def harness_target(rel):
+    """kani/<path>/<src>.rs and kani/<path>/<src>__<suffix>.rs both attach to <path>/<src>.rs"""
+    d, f = os.path.split(rel)
+    base = f[:-3]
+    if "__" in base:
+        src, suffix = base.split("__", 1)
+        return os.path.join(d, src + ".rs"), "__vp_kani_" + re.sub(r"\W", "_", suffix)
+    return rel, "__vp_kani"
 
 
 def crate_of(rel):
@@ -275,16 +286,17 @@ def prepare_kani_copy(dest):
             rel = os.path.relpath(p, KANI_DIR)
             if rel.startswith("_"):
                 continue
-            tgt = os.path.join(dest, rel)
+            srcrel, modname = harness_target(rel)
+            tgt = os.path.join(dest, srcrel)
             if not os.path.exists(tgt):
                 raise FileNotFoundError("anchor lost: %s has no counterpart in the repository" % rel)
             with open(tgt, "a") as f:
-                f.write('\n#[cfg(kani)]\n#[path = "%s"]\nmod __vp_kani;\n' % p)
+                f.write('\n#[cfg(kani)]\n#[path = "%s"]\nmod %s;\n' % (p, modname))
             attached.append(rel)
     return attached
 
 
-def run_kani(harness_names, timeout_s=1500, jobs=None, playback=True, extra_unwind=None):
+def run_kani(harness_names, timeout_s=1500, jobs=None, playback=False, extra_unwind=None):
     res = KaniResult()
     t0 = time.time()
     idx = kani_harness_index()
@@ -305,8 +317,8 @@ def run_kani(harness_names, timeout_s=1500, jobs=None, playback=True, extra_unwi
         os.makedirs(CACHE, exist_ok=True)
         for crate, hs in by_crate.items():
             cmd = ["cargo", "kani", "-p", crate, "-Z", "function-contracts", "-Z", "stubbing",
-                   "--output-format", "terse", "-j", str(jobs or min(16, max(1, len(hs)))),
-                   "--target-dir", os.path.join(CACHE, "kani-target")]
+                   "--output-format", "terse", "-j", str(1 if playback else (jobs or min(16, max(1, len(hs))))),
+                   "--target-dir", KANI_TARGET]
             if playback:
                 cmd += ["-Z", "concrete-playback", "--concrete-playback=print"]
             for h in hs:
@@ -320,6 +332,25 @@ def run_kani(harness_names, timeout_s=1500, jobs=None, playback=True, extra_unwi
                 out += "\nVP-TIMEOUT\n"
             res.raw_tail += out[-6000:]
             parse_kani_output(out, hs, res)
+            failed = [h for h in hs if res.harnesses.get(h, {}).get("status") == "failed"]
+            if failed and not playback:
+                # second pass, sequential, to obtain concrete counterexamples (incompatible with -j > 1)
+                cmd2 = ["cargo", "kani", "-p", crate, "-Z", "function-contracts", "-Z", "stubbing",
+                        "--output-format", "terse", "--target-dir", KANI_TARGET,
+                        "-Z", "concrete-playback", "--concrete-playback=print"]
+                for h in failed[:6]:
+                    cmd2 += ["--harness", h]
+                try:
+                    r2 = subprocess.run(cmd2, cwd=tmp, env=env, stdout=subprocess.PIPE, stderr=subprocess.STDOUT, text=True, timeout=timeout_s)
+                    tmpres = KaniResult()
+                    parse_kani_output(r2.stdout, failed, tmpres)
+                    for h in failed:
+                        pb = tmpres.harnesses.get(h, {}).get("playback")
+                        if pb:
+                            res.harnesses[h]["playback"] = pb
+                    replay_playbacks(tmp, crate, idx, res, failed, env)
+                except subprocess.TimeoutExpired:
+                    pass
         sts = [res.harnesses.get(h, {}).get("status") for h in harness_names]
         if all(s == "ok" for s in sts):
             res.status = "ok"
@@ -334,18 +365,72 @@ def run_kani(harness_names, timeout_s=1500, jobs=None, playback=True, extra_unwi
         shutil.rmtree(tmp, ignore_errors=True)
 
 
+def replay_playbacks(tmp, crate, idx, res, failed, env):
+    """Execute Kani's concrete counterexamples natively against the real code (`cargo kani playback`)."""
+    byfile = {}
+    for h in failed:
+        pb = res.harnesses.get(h, {}).get("playback")
+        if pb:
+            byfile.setdefault(idx[h]["file"], []).append((h, pb))
+    if not byfile:
+        return
+    for rel, lst in byfile.items():
+        src = os.path.join(KANI_DIR, rel)
+        rel = harness_target(rel)[0]
+        aug = os.path.join(tmp, "__vp_playback_" + os.path.basename(src))
+        with open(aug, "w") as f:
+            f.write(open(src).read())
+            for _, pb in lst:
+                f.write("\n" + pb + "\n")
+        tgt = os.path.join(tmp, rel)
+        t = open(tgt).read().replace('#[path = "%s"]' % src, '#[path = "%s"]' % aug)
+        open(tgt, "w").write(t)
+    env2 = dict(env, CARGO_TARGET_DIR=KANI_TARGET + "-playback")
+    try:
+        r = subprocess.run(["cargo", "kani", "playback", "-Z", "concrete-playback", "-p", crate, "--", "kani_concrete_playback"],
+                           cwd=tmp, env=env2, stdout=subprocess.PIPE, stderr=subprocess.STDOUT, text=True, timeout=900)
+        out = r.stdout
+    except subprocess.TimeoutExpired:
+        return
+    for h in failed:
+        m = re.search(r"test \S*kani_concrete_playback_%s_\d+ \.\.\. (\w+)" % re.escape(h), out)
+        if m:
+            res.harnesses[h]["playback_native"] = m.group(1)   # FAILED = the real code fails on this input
+            pm = re.search(r"---- \S*kani_concrete_playback_%s_\d+ stdout ----\n(.*?)\n(?:stack backtrace|note:)" % re.escape(h), out, re.S)
+            if pm:
+                res.harnesses[h]["playback_panic"] = pm.group(1).strip()[:600]
+
+
 def parse_kani_output(out, hs, res):
-    # split per harness
-    parts = re.split(r"(?m)^Checking harness ", out)
-    for part in parts[1:]:
-        name_line = part.split("\n", 1)[0].strip().rstrip(".")
-        short = name_line.split("::")[-1]
-        h = None
-        for cand in hs:
-            if short == cand or name_line.endswith("::" + cand):
-                h = cand
-        if h is None:
+    # works for sequential output ("Checking harness X...") and for -j N ("Thread k: Checking harness X...",
+    # then "Thread k: " followed by that harness' result block)
+    cur = {}      # thread -> harness
+    blocks = {}   # harness -> text
+    active = None
+    for line in out.split("\n"):
+        m = re.match(r"^(?:Thread (\d+): )?Checking harness (\S+?)\.\.\.\s*$", line)
+        if m:
+            th = m.group(1) or "-"
+            name = m.group(2)
+            h = None
+            for cand in hs:
+                if name == cand or name.endswith("::" + cand):
+                    h = cand
+            cur[th] = h
+            active = h if th == "-" else None
+            if h:
+                blocks.setdefault(h, "")
             continue
+        m = re.match(r"^Thread (\d+):\s*$", line)
+        if m:
+            active = cur.get(m.group(1))
+            continue
+        if line.startswith("Manual Harness Summary") or line.startswith("Complete - "):
+            active = None
+            continue
+        if active:
+            blocks[active] = blocks.get(active, "") + line + "\n"
+    for h, part in blocks.items():
         info = {"status": "undecided", "time_s": None, "failed_checks": [], "covers_ok": 0, "covers_total": 0, "checks": 0}
         m = re.search(r"Verification Time: ([0-9.]+)s", part)
         if m:
@@ -363,10 +448,10 @@ def parse_kani_output(out, hs, res):
             if info["covers_total"] and info["covers_ok"] < info["covers_total"]:
                 info["status"] = "vacuous"
         elif "VERIFICATION:- FAILED" in part:
-            # unwinding-assertion-only failures or unsupported constructs are not semantic
             descs = [f["desc"] for f in info["failed_checks"]]
             if descs and all(("unwinding assertion" in d or "is not currently supported" in d or "recursion unwinding" in d) for d in descs):
                 info["status"] = "undecided"
+                info["reason"] = "; ".join(descs)[:300]
             else:
                 info["status"] = "failed"
         pb = re.search(r"Concrete playback unit test for `[^`]*`:\s*```\s*(.*?)```", part, re.S)
